@@ -47,6 +47,12 @@ pub mod format {
             use vstd::prelude::*;
             //@extract biscuit-auth/src/format/schema.rs :: mod public_key :: enum Algorithm
             //@end
+            // `schema::public_key::Algorithm -> builder::Algorithm` (token/builder/algorithm.rs: by name)
+            impl crate::verif_std::VerifInto<crate::builder::Algorithm> for Algorithm {
+                open spec fn into_req(self) -> bool { true }
+                open spec fn into_spec(self) -> crate::builder::Algorithm { match self { Algorithm::Ed25519 => crate::builder::Algorithm::Ed25519, Algorithm::Secp256r1 => crate::builder::Algorithm::Secp256r1 } }
+                fn verif_into(self) -> (r: crate::builder::Algorithm) { match self { Algorithm::Ed25519 => crate::builder::Algorithm::Ed25519, Algorithm::Secp256r1 => crate::builder::Algorithm::Secp256r1 } }
+            }
             impl Algorithm {
                 // ASSUMED (prost::Enumeration derive): the tag table
                 #[verifier::external_body]
